@@ -582,7 +582,7 @@ class HInterp:
                     ast.fix_missing_locations(f)
                     return self.loop(f, p)
             raise HUndecided("statement `%s`" % unparse(s, 50))
-        if isinstance(s, ast.Pass):
+        if isinstance(s, (ast.Pass, ast.Assert)):
             return [("fall", p, None)]
         raise HUndecided("statement `%s`" % unparse(s, 50))
 
